@@ -20,7 +20,7 @@ RULE = ("G-cond: #if/#elif/#else trees to depth 4 (elif chains to length 4) whos
         "non-static address-free expression / other constant / -d define) feeding an #if/#elif/#else with and without other #if blocks; "
         "non-trivial = distinct (program, defines) with at least one condition that reads a name")
 
-THEOREMS = ["eval_monotone", "C16_consistent", "C16_invisible", "C16_undecidable", "C16_define", "C16_unused", "C16_loop_complete"]
+THEOREMS = ["eval_monotone", "C16_consistent", "C16_invisible", "C16_undecidable", "C16_define", "C16_unused", "C16_loop_complete", "C16_total", "C16_fuel"]
 
 
 def directed():
@@ -201,7 +201,7 @@ def run(chk):
             chk.violation("implementation crashed, was inconsistent or failed outside the conditional-assembly loop: %s" % impl, rep(idx, kind="crash"))
             continue
         if fm[0] not in ("OK", "ERR"):
-            chk.violation("model left its domain (%s): fuel or panic value reached" % mres[idx], rep(idx, kind="correspondence",
+            chk.violation("extracted model answered %s although C16_total / C16_fuel exclude panic and fuel values: extraction or driver broken" % mres[idx], rep(idx, kind="correspondence",
                           theorems=THEOREMS), found=False)
             continue
         if d:
